@@ -506,12 +506,14 @@ def inv_legal(ctx):
     out += [f"{x.rule}: {x.what[:140]}" for x in sub_rules(ctx, "C11", {"C11.R1"})]
     LEG = "chess_movegen::iter::<impl chess_movegen::Board>::legals"
     # alphabeta call sites: the move comes from legals() of the board stored in args.old_board
-    for k in [k for k in P.fns if k.startswith("chess_engine::Engine::") and "closure" not in k and "promoted" not in k]:
+    wr = k2.ab_wrappers(P)      # a private helper that hands its move parameter to alphabeta: its call sites are the sites to look at
+    for k in [k for k in P.fns if k.startswith("chess_engine::Engine::") and "closure" not in k and "promoted" not in k and k not in wr]:
         body = P.body(k)
         for bi, t in P.calls(k):
-            if t["f"].get("fn", "") != "chess_engine::Engine::alphabeta" or len(t["a"]) < 3:
+            callee = T.strip_generics(t["f"].get("fn", ""))
+            if (callee != "chess_engine::Engine::alphabeta" and callee not in wr) or len(t["a"]) < 3:
                 continue
-            mv = t["a"][1]
+            mv = t["a"][wr[callee]["mv"] if callee in wr else 1]
             src = k2.origins(P, body, mv["p"]["l"]) if mv.get("k") in ("copy", "move") else set()
 
             def boards(os, depth=0):
